@@ -96,6 +96,7 @@ class Interp:
     def __init__(self, biort, qshift, b):
         self.biort, self.qshift, self.b = biort, qshift, b
         self.memo = {}
+        self.rmin = float("inf")       # smallest sqrt(|z|^2 + b^2) met: the phase z / r is only as accurate as eps * |z-error| / r
 
     def _apply(self, M, img, h, w):
         return (img.reshape(img.shape[0], -1) @ M.T).reshape(img.shape[0], h, w)
@@ -118,7 +119,9 @@ class Interp:
             for a in t[1:]:
                 re_, im_ = self.ev(a, x)
                 s = s + re_ ** 2 + im_ ** 2
-            return torch.sqrt(s + self.b ** 2) - self.b
+            r = torch.sqrt(s + self.b ** 2)
+            self.rmin = min(self.rmin, float(r.min()))
+            return r - self.b
         if name in ("L2lo",) or name.startswith("L2hi"):
             assert t[1][0] == "Lo1", t            # the level-2 stage reads the level-1 lowpass: evaluate the composite
             img = self.ev(t[1][1], x)
@@ -138,9 +141,12 @@ class Interp:
         return (self._apply(ops["hi1"][o, 0], img, H // 2, W // 2), self._apply(ops["hi1"][o, 1], img, H // 2, W // 2))
 
 
-def ref_forward(table, biort, qshift, b, x):
+def ref_forward(table, biort, qshift, b, x, info=None):
     it = Interp(biort, qshift, b)
-    return torch.stack([it.ev(t, x) for t in table], dim=1)
+    out = torch.stack([it.ev(t, x) for t in table], dim=1)
+    if info is not None:
+        info["rmin"] = it.rmin
+    return out
 
 
 def tables(rep, tier, csets):
@@ -251,7 +257,8 @@ def checks(rep, pid, tier, want):
             except Exception as e:      # noqa
                 rep.violation("%s raised %r at %s" % (cfg["layer"], e, cfg), dict(case, observed=repr(e)))
                 continue
-            zr = ref_forward(table, fam[0], fam[1], b, extend(xr, order))
+            rinfo = {}
+            zr = ref_forward(table, fam[0], fam[1], b, extend(xr, order), rinfo)
             if tuple(z.shape) != tuple(zr.shape):
                 if want == "value":
                     rep.violation("%s: output shape %s, the definition's terms give %s at %s" % (cfg["layer"], tuple(z.shape), tuple(zr.shape), cfg), case)
@@ -287,7 +294,12 @@ def checks(rep, pid, tier, want):
                     ok = False
                     break
                 diff = float((g - gr).abs().max())
-                tol = 1e-10 * (float(gr.abs().max()) + float(g.abs().max())) + 1e-13 * float(c.abs().max())
+                # rounding floor of a phase z / r: the band values carry an absolute error of about eps * gain * max|x|, which the
+                # division by r >= rmin turns into a phase error (bands that are exactly annihilated - a ramp, a constant - are
+                # pure rounding noise there, and two correct implementations differ by this much)
+                xmax = float(np.abs(x0).max())
+                floor = 256 * 2.2e-16 * 16.0 * xmax / max(rinfo.get("rmin", b), 1e-300) * float(c.abs().max())
+                tol = 1e-10 * (float(gr.abs().max()) + float(g.abs().max())) + 1e-13 * float(c.abs().max()) + floor
                 if diff <= tol:
                     continue
                 # the reference nominates the direction, the real forward decides
